@@ -280,8 +280,8 @@ func clientOrder(repo string) (string, error) {
 		"`Client.reader`: every answer goes through processQueryAnswer and the reader does no channel send of its own",
 		"count "+tok("call:processQueryAnswer")+" clientReader = 1 ∧ count "+tok("chansend")+" clientReader = 0")
 	ob("send_checks_status_then_writes",
-		"`Connection.Send`: under mu, the status test precedes the write; a failing write spawns `go reconnect()` — action `send`",
-		"chain "+toks("call:mu.Lock", "if:status != Connected", "call:econn.send", "go:reconnect")+" connSend = true")
+		"`Connection.Send`: mu is locked, its release DEFERRED (so the write happens under mu — no explicit Unlock in the function), the status test precedes the write; a failing write spawns `go reconnect()` — actions `sendBegin`, `writeDone`, `writeFail`",
+		"chain "+toks("call:mu.Lock", "defer:mu.Unlock", "if:status != Connected", "call:econn.send", "go:reconnect")+" connSend = true ∧ count "+tok("call:mu.Unlock")+" connSend = 0")
 	ob("reconnect_guarded_by_status",
 		"`Connection.reconnect`: under mu, the guard `status == Connecting` precedes the status change and the close — action `reconnectStart`",
 		"chain "+toks("call:mu.Lock", "if:status == Connecting", "store:status", "call:econn.close", "call:setupEncryptedConnection")+" reconnect = true")
